@@ -12,12 +12,14 @@ LEVEL = "exploration"
 LANDMARK_PAIRS = {("PoseSE2", "PoseR2"), ("PoseSE3", "PoseR3"), ("PoseR2", "PoseR2"), ("PoseR3", "PoseR3")}
 EST_TYPES = POSES + ["ndarray", "float"]
 OFF_TYPES = POSES + ["ndarray", "None"]
-ID_STATES = ["matching", "mismatching", "unbound", "length-mismatch"]
+ID_STATES = ["matching", "mismatching", "unbound", "length-mismatch", "repeated"]
+# "repeated": the last id repeats the first one (and is bound to the same vertex object): the number of vertices an edge names
+# is the length of its id list, not the number of distinct ids
 
 
 def consistent(edge_cls, vtypes, est, off, shape, ids):
     """The checker's consistency table, taken from the property text."""
-    if ids != "matching" or len(vtypes) != 2:
+    if ids not in ("matching", "repeated") or len(vtypes) != 2:
         return False
     t1, t2 = vtypes
     if edge_cls == "EdgeOdometry":
@@ -57,10 +59,18 @@ def evaluate(pkg, vals, edge_cls, vtypes, est, off, shape, ids):
     """Interpret <edge_cls>.is_valid on one abstract configuration; returns True / False / 'raises:<exc>'."""
     n = len(vtypes)
     id_polys = [Poly.var("id%d" % k) for k in range(n)]       # opaque, pairwise distinct names
+    if ids == "repeated":
+        if n < 2 or vtypes[-1] != vtypes[0]:
+            return "not-well-formed"          # one vertex has one type
+        id_polys = id_polys[:-1] + [id_polys[0]]
+
     def run(it):
         verts = []
         for k, t in enumerate(vtypes):
             vid = id_polys[k] if ids != "mismatching" or k != n - 1 else Poly.var("other_id")
+            if ids == "repeated" and k == n - 1:
+                verts.append(verts[0])
+                continue
             verts.append(it.construct("Vertex", [vid, vals.pose[t]]))
         vlist = verts
         if ids == "unbound":
@@ -104,6 +114,8 @@ def chunk_task(edge_cls, nverts, shapes, ids_states, first=None):
                     for shape in shapes:
                         for ids in ids_states:
                             got = evaluate(pkg, vals, edge_cls, vtypes, est, off, shape, ids)
+                            if got == "not-well-formed":
+                                continue
                             exp = consistent(edge_cls, vtypes, est, off, shape, ids)
                             n += 1
                             if exp:
